@@ -35,7 +35,9 @@ Proof. exact cmd_registers. Qed.
 Print Assumptions C20_fresh_ids.
 
 (* the unsubscribe commands are translated to the message of their name, with the caller's subscription id
-   (UnsubscribeLsAsync used to send Unsubscribe: F15, fixed) *)
+   (UnsubscribeLsAsync used to send Unsubscribe: F15, fixed) -- in EVERY client state c: whether a local event
+   callback is filed under that id or not (a subscription made with subscribe_async / psubscribe_async /
+   subscribe_ls_async has none) *)
 Theorem C20_unsubscribe_translation :
   forall c call t,
   snd (fst (on_cmd c call (CUnsubscribe t))) = MUnsubscribe t /\ snd (fst (on_cmd c call (CUnsubscribeAsync t))) = MUnsubscribe t /\
@@ -84,6 +86,15 @@ Print Assumptions C20_latest_value.
 Theorem C20_nothing_else_sent : forall es, Forall (handed es) (snd (brun sb_init es)).
 Proof. exact nothing_else_sent. Qed.
 Print Assumptions C20_nothing_else_sent.
+
+(* a subscription made through the ticket API files no callback; its fire-and-forget unsubscribe is sent all the same *)
+Example C20_unsubscribe_of_ticket_subscription :
+  let '(c1, m1, t1) := on_cmd cinit 1 (CSubscribeAsync [97] false false) in
+  let '(c2, m2, t2) := on_cmd c1 2 (CSubscribeLsAsync None) in
+  sub c2 = [] /\ subls c2 = [] /\ t1 = Ticket 1 /\ t2 = Ticket 2 /\
+  snd (fst (on_cmd c2 3 (CUnsubscribeAsync 1))) = MUnsubscribe 1 /\
+  snd (fst (on_cmd c2 3 (CUnsubscribeLsAsync 2))) = MUnsubscribeLs 2.
+Proof. vm_compute. repeat split; reflexivity. Qed.
 
 Example C20_nonvacuous :
   snd (brun sb_init [Later BSet [107] (JBool true); Later BPub [107] JNull; Later BSet [107] (JBool false); Fire BPub [107]; Fire BSet [107]]) =
